@@ -9,50 +9,51 @@ Everything is generic in the closure-body relation `Q`.
 -/
 namespace DarkluaModel.Sem.Heap
 
-def EnvOK {N : NumOps} (cx : Cx) (β : CellRel) (D : List String) (env env' : Env N) : Prop :=
-  env'.varargs = env.varargs ∧ EnvRel β D env.locals env'.locals
+structure EnvOK {N : NumOps} (cx : Cx) (β : CellRel) (D : List DName) (env env' : Env N) : Prop where
+  va : env'.varargs = env.varargs
+  loc : LocOK cx β D env.locals env'.locals
 
-theorem EnvOK.mono {N : NumOps} {β β' : CellRel} {D} {env env' : Env N} (h : EnvOK cx β D env env') (hβ : β.le β') :
-    EnvOK cx β' D env env' := ⟨h.1, h.2.mono hβ⟩
+theorem EnvOK.mono {N : NumOps} {cx : Cx} {β β' : CellRel} {D} {env env' : Env N} (h : EnvOK cx β D env env')
+    (hβ : β.le β') : EnvOK cx β' D env env' := ⟨h.va, h.loc.mono hβ⟩
 
-theorem EnvOK.weaken {N : NumOps} {β : CellRel} {D D'} {env env' : Env N} (h : EnvOK cx β D env env')
-    (hD : ∀ x ∈ D, x ∈ D') : EnvOK cx β D' env env' := ⟨h.1, h.2.weaken hD⟩
+theorem EnvOK.weaken {N : NumOps} {cx : Cx} {β : CellRel} {D D'} {env env' : Env N} (h : EnvOK cx β D env env')
+    (hD : DExt D D') : EnvOK cx β D' env env' := ⟨h.va, h.loc.weaken hD⟩
 
 /-- evaluated targets: equal, and storable (a variable target is not dead) -/
-def ATarget {N : NumOps} (D : List String) : ARel (Target N) := fun _ t t' => t = t' ∧ TargetOK D t
-def ATargets {N : NumOps} (D : List String) : ARel (List (Target N)) :=
+def ATarget {N : NumOps} (D : List DName) : ARel (Target N) := fun _ t t' => t = t' ∧ TargetOK D t
+def ATargets {N : NumOps} (D : List DName) : ARel (List (Target N)) :=
   fun _ t t' => t = t' ∧ ∀ tg ∈ t, TargetOK D tg
 
-def SoundE (Q : QRel) (cx : Cx) (D : List String) (x y : Expr) : Prop :=
+def SoundE (Q : QRel) (cx : Cx) (D : List DName) (x y : Expr) : Prop :=
   ∀ (N : NumOps) (call : CallFn N) (ρ : ExtOracle N) (k : Nat) (env env' : Env N) (σ σ' : State N) (β : CellRel),
     CallOK Q cx call → SRel Q cx β σ σ' → EnvOK cx β D env env' →
       RRel Q cx β AEq (evalE call ρ k env x σ) (evalE call ρ k env' y σ')
-def SoundT (Q : QRel) (cx : Cx) (D : List String) (x y : Expr) : Prop :=
+def SoundT (Q : QRel) (cx : Cx) (D : List DName) (x y : Expr) : Prop :=
   ∀ (N : NumOps) (call : CallFn N) (ρ : ExtOracle N) (k : Nat) (env env' : Env N) (σ σ' : State N) (β : CellRel),
     CallOK Q cx call → SRel Q cx β σ σ' → EnvOK cx β D env env' →
       RRel Q cx β (ATarget D) (evalTarget call ρ k env x σ) (evalTarget call ρ k env' y σ')
-def SoundEs (Q : QRel) (cx : Cx) (D : List String) (x y : List Expr) : Prop :=
+def SoundEs (Q : QRel) (cx : Cx) (D : List DName) (x y : List Expr) : Prop :=
   ∀ (N : NumOps) (call : CallFn N) (ρ : ExtOracle N) (k : Nat) (env env' : Env N) (σ σ' : State N) (β : CellRel),
     CallOK Q cx call → SRel Q cx β σ σ' → EnvOK cx β D env env' →
       RRel Q cx β AEq (evalEs call ρ k env x σ) (evalEs call ρ k env' y σ')
-def SoundTs (Q : QRel) (cx : Cx) (D : List String) (x y : List Expr) : Prop :=
+def SoundTs (Q : QRel) (cx : Cx) (D : List DName) (x y : List Expr) : Prop :=
   ∀ (N : NumOps) (call : CallFn N) (ρ : ExtOracle N) (k : Nat) (env env' : Env N) (σ σ' : State N) (β : CellRel),
     CallOK Q cx call → SRel Q cx β σ σ' → EnvOK cx β D env env' →
       RRel Q cx β (ATargets D) (evalTargets call ρ k env x σ) (evalTargets call ρ k env' y σ')
-def SoundElifs (Q : QRel) (cx : Cx) (D : List String) (x y : List (Expr × Expr)) : Prop :=
+def SoundElifs (Q : QRel) (cx : Cx) (D : List DName) (x y : List (Expr × Expr)) : Prop :=
   ∀ (N : NumOps) (call : CallFn N) (ρ : ExtOracle N) (k : Nat) (env env' : Env N) (σ σ' : State N) (β : CellRel),
     CallOK Q cx call → SRel Q cx β σ σ' → EnvOK cx β D env env' →
       RRel Q cx β AEq (evalElifs call ρ k env x σ) (evalElifs call ρ k env' y σ')
-def SoundEntries (Q : QRel) (cx : Cx) (D : List String) (x y : List Entry) : Prop :=
+def SoundEntries (Q : QRel) (cx : Cx) (D : List DName) (x y : List Entry) : Prop :=
   ∀ (N : NumOps) (call : CallFn N) (ρ : ExtOracle N) (k : Nat) (env env' : Env N) (t i : Nat) (σ σ' : State N)
     (β : CellRel), CallOK Q cx call → SRel Q cx β σ σ' → EnvOK cx β D env env' →
       RRel Q cx β AEq (evalEntries call ρ k env t i x σ) (evalEntries call ρ k env' t i y σ')
-def SoundSegs (Q : QRel) (cx : Cx) (D : List String) (x y : List Seg) : Prop :=
+def SoundSegs (Q : QRel) (cx : Cx) (D : List DName) (x y : List Seg) : Prop :=
   ∀ (N : NumOps) (call : CallFn N) (ρ : ExtOracle N) (k : Nat) (env env' : Env N) (acc : List UInt8)
     (σ σ' : State N) (β : CellRel), CallOK Q cx call → SRel Q cx β σ σ' → EnvOK cx β D env env' →
       RRel Q cx β AEq (evalSegs call ρ k env x acc σ) (evalSegs call ρ k env' y acc σ')
 
-variable {Q : QRel} {cx : Cx} {D : List String}
+variable {Q : QRel} {cx : Cx} {D : List DName}
 
 /-! ### exact steps on the left -/
 
@@ -69,9 +70,9 @@ theorem SoundE.leaf {x : Expr} (hl : x.isLeaf = true) (hx : NoRefE D x) : SoundE
   intro N call ρ k env env' σ σ' β hc hs he
   cases x <;> first | (simp [Expr.isLeaf] at hl; done) | simp only [evalE]
   case var n =>
-    have hn : n ∉ D := fun hm => by have := hx n hm; simp [Expr.refs] at this
-    rw [hs.lookupVar he.2 hn]; exact RRel.okEq hs
-  case vararg => rw [he.1]; exact RRel.okEq hs
+    have hn : DName.ref n ∉ D := NoRefE.var.mp hx
+    rw [hs.lookupVar he.loc.rel hn]; exact RRel.okEq hs
+  case vararg => rw [he.va]; exact RRel.okEq hs
   all_goals exact RRel.okEq hs
 
 theorem SoundE.paren {x x'} (ih : SoundE Q cx D x x') : SoundE Q cx D (.paren x) (.paren x') := by
@@ -132,7 +133,7 @@ theorem SoundE.index {x x' i i'} (ih : SoundE Q cx D x x') (ihi : SoundE Q cx D 
 theorem SoundE.fn {f f'} (hf : Q D f f') : SoundE Q cx D (.fn f) (.fn f') := by
   intro N call ρ k env env' σ σ' β hc hs he
   simp only [evalE]
-  have := hs.allocClosure (c := ⟨f, env.locals, []⟩) (c' := ⟨f', env'.locals, []⟩) ⟨rfl, D, hf, he.2⟩
+  have := hs.allocClosure (c := ⟨f, env.locals, []⟩) (c' := ⟨f', env'.locals, []⟩) ⟨rfl, D, hf, he.loc⟩
   rw [this.1]
   exact RRel.okEq this.2
 
